@@ -37,3 +37,58 @@ func AddsThroughPointer(ts []tally, i int, d uint64) []tally {
 	t.n = t.n + d
 	return ts
 }
+
+type book struct {
+	entries []tally
+	byWho   map[string]*tally
+}
+
+// KeepsElementPointers keeps a pointer to the element it has just appended; a later append may move the entries to a
+// new array and leave the kept pointers on the old one (positive control for the stale-element-pointer rule).
+func KeepsElementPointers(b *book, who string, d uint64) {
+	if t, ok := b.byWho[who]; ok {
+		t.n += d
+		return
+	}
+	b.entries = append(b.entries, tally{who, d})
+	b.byWho[who] = &b.entries[len(b.entries)-1]
+}
+
+type indexed struct {
+	entries []tally
+	byWho   map[string]int
+}
+
+// KeepsPositions keeps the position instead: the correct form (negative control).
+func KeepsPositions(b *indexed, who string, d uint64) {
+	if i, ok := b.byWho[who]; ok {
+		b.entries[i].n += d
+		return
+	}
+	b.byWho[who] = len(b.entries)
+	b.entries = append(b.entries, tally{who, d})
+}
+
+// PointersAfterFilling takes the pointers once the list is complete: correct as well (negative control).
+func PointersAfterFilling(names []string) map[string]*tally {
+	var list []tally
+	for _, n := range names {
+		list = append(list, tally{n, 0})
+	}
+	out := map[string]*tally{}
+	for i := range list {
+		out[list[i].who] = &list[i]
+	}
+	return out
+}
+
+// PointersWhileFilling takes each pointer while the list still grows (positive control, local form).
+func PointersWhileFilling(names []string) map[string]*tally {
+	var list []tally
+	out := map[string]*tally{}
+	for _, n := range names {
+		list = append(list, tally{n, 0})
+		out[n] = &list[len(list)-1]
+	}
+	return out
+}
